@@ -262,6 +262,29 @@ func (pc *progChecker) spanChecks(text string, c *progCase, ext [][2]int, nodes 
 	return ""
 }
 
+// stripSpanFlags removes the fields of a projected tree that only say whether a span is valid.
+func stripSpanFlags(x any) any {
+	switch x := x.(type) {
+	case map[string]any:
+		out := make(map[string]any, len(x))
+		for k, v := range x {
+			if k == "ascGiven" || k == "nullsGiven" || k == "by" || k == "with" {
+				continue
+			}
+			out[k] = stripSpanFlags(v)
+		}
+		return out
+	case []any:
+		out := make([]any, len(x))
+		for i, v := range x {
+			out[i] = stripSpanFlags(v)
+		}
+		return out
+	default:
+		return x
+	}
+}
+
 func safeSlice(text string, sp parser.Span) string {
 	if sp.IsValid() && sp.End <= len(text) {
 		return text[sp.Start:sp.End]
@@ -429,7 +452,9 @@ func (pc *progChecker) checkGenerated(c *progCase, rng interface {
 			continue
 		}
 		got := any(projStmts(stmts))
-		if d := firstDiff("", wantTree, got); d != "" {
+		// whether an optional keyword was written is recorded in the tree only as a span: that part of the
+		// comparison belongs to the span checks below (C10), the rest is the shape of the tree (C07)
+		if d := firstDiff("", stripSpanFlags(wantTree), stripSpanFlags(got)); d != "" {
 			res.violate(Violation{Property: "C07", Kind: "tree_differs", InputB64: b64(text), Extra: extra,
 				Expected: wantTree, Observed: got, Reason: "tree differs from the grammar's (grammar vs Parse) at " + d})
 			continue
